@@ -275,6 +275,11 @@ def run(seed, count):
             kinds[kind] += 1
             if kind == "debug_stream" and detail.endswith("NO"):
                 kinds["debug_stream_not_explained_by_addresses"] += 1
+            # C18 is about the RETURNED text. The debug stream (written to ctx.outf) prints default object reprs with
+            # memory addresses; a stream that differs only in 0x... addresses is recorded in the stats, not as a failure.
+            if kind == "debug_stream" and detail.endswith("yes"):
+                m["failed"] -= 1
+                continue
             failures.append({"scenario": {"text": text, "options": opts_of(mask), "kind": kind}, "detail": detail})
         elif len(samples) < 3 and len(text) < 400 and (mask or len(samples) == 0):
             samples.append({"text": text, "options": opts_of(mask), "observations": len(o), "returned_sha": o[0]["ret"]})
